@@ -35,7 +35,7 @@ class TaskHung(BaseException):
 
 class Task:
     __slots__ = ("name", "fn", "thread", "lock", "done", "exc", "started", "baton",
-                 "blocked_on", "kill", "result")
+                 "blocked_on", "kill", "result", "abandoned")
 
     def __init__(self, baton: "Baton", name: str, fn: Optional[Callable]):
         self.name = name
@@ -50,6 +50,7 @@ class Task:
         self.kill = False
         self.thread = None
         self.result = None
+        self.abandoned = False     # blocked for ever inside the code under test (never scheduled again)
 
     def __repr__(self):
         return f"<Task {self.name}>"
@@ -130,7 +131,7 @@ class Baton:
         """Unwind every parked task (called by the driver at teardown)."""
         me = self.current
         for t in self.tasks:
-            if t is me or t.done or t is self.main:
+            if t is me or t.done or t is self.main or t.abandoned:
                 continue
             t.kill = True
             self.current = t
